@@ -2,7 +2,7 @@ use std::{collections::HashMap, fmt::Debug};
 
 use common_lang_types::{SelectableName, WithEmbeddedLocation};
 use isograph_lang_types::{
-    ArgumentKeyAndValue, ConstantValue, NonConstantValue, ScalarSelectionDirectiveSet,
+    ArgumentKeyAndValue, NonConstantValue, ScalarSelectionDirectiveSet,
     SelectionFieldArgument, SelectionType, VariableDeclaration, VariableNameWrapper,
 };
 use prelude::Postfix;
@@ -63,20 +63,19 @@ impl VariableContext {
                     }
                 };
 
+                // Every variable in the argument value (including variables nested in
+                // object and list literals) is replaced by the parent context's value.
                 let child_value =
-                    // TODO avoid cloning
-                    match ConstantValue::try_from(matching_arg.item.clone().value.item) {
-                        Ok(_) => matching_arg.item.value.item.clone(),
-                        Err(e) => self
-                            .0
-                            .get(&e)
+                    substitute_variables(&matching_arg.item.value.item, &|variable_name| {
+                        self.0
+                            .get(&variable_name)
                             .expect(
                                 "Parent context has missing variable. \
                                 This should have been validated already. \
                                 This is indicative of a bug in Isograph.",
                             )
-                            .clone(),
-                    };
+                            .clone()
+                    });
 
                 (variable_name, child_value)
             })
@@ -140,33 +139,57 @@ impl<TCompilationProfile: CompilationProfile> FlattenedDataModelSelectable<TComp
     }
 }
 
+/// Replaces every variable in `value`, including those nested in object and list
+/// literals, by `lookup(variable)`.
+fn substitute_variables(
+    value: &NonConstantValue,
+    lookup: &impl Fn(VariableNameWrapper) -> NonConstantValue,
+) -> NonConstantValue {
+    match value {
+        NonConstantValue::Variable(variable_name) => lookup(*variable_name),
+        NonConstantValue::Object(entries) => NonConstantValue::Object(
+            entries
+                .iter()
+                .map(|entry| {
+                    let mut entry = entry.clone();
+                    entry.value.item = substitute_variables(&entry.value.item, lookup);
+                    entry
+                })
+                .collect(),
+        ),
+        NonConstantValue::List(items) => NonConstantValue::List(
+            items
+                .iter()
+                .map(|item| {
+                    let mut item = item.clone();
+                    item.item = substitute_variables(&item.item, lookup);
+                    item
+                })
+                .collect(),
+        ),
+        other => other.clone(),
+    }
+}
+
 fn transform_selection_field_argument_into_merged_arg_with_child_context(
     arg: ArgumentKeyAndValue,
     variable_context: &VariableContext,
 ) -> ArgumentKeyAndValue {
-    if let NonConstantValue::Variable(used_variable_name) = arg.value {
-        // Look up the variable in the variables in context, and use that value
-        //
-        // This will give us the *actual value* that we need for the merged selection set.
-        let value = variable_context.0.get(&used_variable_name);
-
-        return match value {
-            Some(value) => ArgumentKeyAndValue {
-                key: arg.key,
-                value: value.clone(),
-            },
-            None => {
+    // Look up each variable in the variables in context, and use that value
+    //
+    // This will give us the *actual value* that we need for the merged selection set.
+    ArgumentKeyAndValue {
+        key: arg.key,
+        value: substitute_variables(&arg.value, &|used_variable_name| {
+            variable_context
+                .0
+                .get(&used_variable_name)
+                .cloned()
                 // There is no variable. The value is missing! It had better be optional.
                 // TODO we should validate that
-                ArgumentKeyAndValue {
-                    key: arg.key,
-                    value: NonConstantValue::Null,
-                }
-            }
-        };
+                .unwrap_or(NonConstantValue::Null)
+        }),
     }
-
-    arg
 }
 
 pub fn transform_arguments_with_child_context(
